@@ -204,10 +204,10 @@ Proof. vm_compute. split; reflexivity. Qed.
    word operators, `not` and `not in`, brackets, quoted strings with the escapes \\ \q \a \b \f \n \r \t \v
    \xHH) and puts the white-space run `gap L i` chosen by the layout L in front of token i (`inner L i`
    between the words of `not in`, `dquote L i` chooses the quote character); `parse_text` is parser.Parse on
-   a source text (Lex/Lexer.v `lex`, then `parse`).  The theorems are stated UP TO NODE LOCATIONS
-   (`erase_loc`): C11_lexer_layout gives the position of every token of the text and C11_roundtrip says that
-   node locations are the locations of the anchor tokens, but the two are not combined into one statement
-   about the locations of the tree parsed from the text (C11_text_example_computed shows computed ones).
+   a source text (Lex/Lexer.v `lex`, then `parse`).  The round-trip theorems are stated UP TO NODE LOCATIONS
+   (`erase_loc`: the tree parsed from a text has the positions of that text as locations, whatever locations
+   the printed tree had); C11_text_locations says where the nodes of the parsed tree are located: at the
+   positions (C11_lexer_layout) of their anchor tokens, for trees whose locations are distinct labels.
    Everything holds for EVERY unicode oracle (uni_letter/uni_digit/uni_space = unicode.IsLetter/IsDigit/
    IsSpace on code points >= 128), every float/regexp oracle and every number formatter.  White space in the
    layouts is space, tab, LF, CR, VT, FF (`ascii_ws`); white space >= U+0080 is not covered. *)
@@ -292,6 +292,34 @@ Theorem C11_text_roundtrip : forall (uni_letter uni_digit uni_space : Z -> bool)
 Proof. exact (fun ul ud us o fi ff => text_roundtrip_tree ul ud us gen_grammar o fi ff gen_grammar_wf). Qed.
 Print Assumptions C11_text_roundtrip.
 
+(* LOCATIONS.  5b'. Two token lists with the same kinds and values: every node location of either parse comes
+   from the token at the same index (both parses are relabellings, by `nth_loc`, of one tree over index labels) *)
+Theorem C11_parser_location_provenance : forall (g : grammar) (o : oracles) (ts1 ts2 : list token),
+  strip ts1 = strip ts2 ->
+  exists R, parse g o ts1 = map_result (nth_loc ts1) R /\ parse g o ts2 = map_result (nth_loc ts2) R.
+Proof. exact parse_provenance. Qed.
+Print Assumptions C11_parser_location_provenance.
+
+(* ... hence, for a tree whose node locations are pairwise distinct labels (`distinct_locs` of the printed
+   tokens, decidable): in the tree parsed from the text, every labelled node stands at the position the lexer
+   gives to the token that carries its label (`text_positions`: positions of the tokens of the text, made
+   explicit by C11_lexer_layout; `loc_at ts ps l`: the element of ps at the index of the token of ts located
+   at l).  Conditional nodes carry no label and are not covered by this statement (they get no location:
+   see the computed Example below). *)
+Theorem C11_text_locations : forall (uni_letter uni_digit uni_space : Z -> bool) (o : oracles)
+    (fmt_int : Z -> string) (fmt_float : PrimFloat.float -> string) (c : poracle) (t : expr) (L : layout),
+  let toks := print_any gen_grammar fmt_int fmt_float c t in
+  printable gen_grammar fmt_int fmt_float o c t ->
+  tree_textable uni_letter uni_digit uni_space fmt_int fmt_float t = true ->
+  white L toks = true -> distinct_locs toks = true ->
+  exists t', parse_text uni_letter uni_digit uni_space gen_grammar o (render uni_letter uni_digit uni_space L toks) = ROk t' /\
+    erase_loc t' = erase_loc t /\
+    forall path x, node_at t path = Some x -> loc_of x <> noloc ->
+      exists x', node_at t' path = Some x' /\
+        loc_of x' = loc_at toks (text_positions uni_letter uni_digit uni_space (render uni_letter uni_digit uni_space L toks)) (loc_of x).
+Proof. exact (fun ul ud us o fi ff => text_locations_tree ul ud us gen_grammar o fi ff gen_grammar_wf). Qed.
+Print Assumptions C11_text_locations.
+
 (* in particular: any non-empty white-space run that starts with U+0020, the same between all tokens *)
 Theorem C11_text_roundtrip_uniform : forall (uni_letter uni_digit uni_space : Z -> bool) (o : oracles)
     (fmt_int : Z -> string) (fmt_float : PrimFloat.float -> string) (c : poracle) (t : expr) (ws : list Z) (dq : bool),
@@ -355,6 +383,12 @@ Theorem C11_text_partial : forall (uni_letter uni_digit uni_space : Z -> bool) (
              erase_loc t' = erase_loc t.
 Proof. exact text_partial. Qed.
 Print Assumptions C11_text_partial.
+
+(* the carve-out is a restriction of the hypothesis of the full statement *)
+Theorem C11_notin_carve_out_restricts : forall (toks : list token) (L : layout) (i : nat),
+  notin_spaced L i toks = true -> notin_white L i toks = true.
+Proof. exact notin_spaced_white. Qed.
+Print Assumptions C11_notin_carve_out_restricts.
 
 Theorem C11_notin_carve_out_vacuous_without_notin : forall (toks : list token) (L : layout) (i : nat),
   forallb (fun t => negb (is_op_tok "not in" t)) toks = true -> notin_spaced L i toks = true.
@@ -463,3 +497,37 @@ Example C11_text_example_computed :
   | _ => False
   end.
 Proof. vm_compute. split; reflexivity. Qed.
+
+(* ---- non-vacuity of C11_text_locations: a tree with pairwise distinct labels (the map, its pair and the bare
+   key share the label of `{`, as the parser has it) *)
+Definition at9 (n : Z) : ann := at_loc (9, n).
+Definition lab_tree : expr :=
+  ECond ann0
+    (EBinary (at9 1) BNotIn (EIdent (at9 2) "a" false) (EArray (at9 3) [EInt (at9 4) 1; EStr (at9 5) "s"]))
+    (EBuiltin (at9 6) BiAll [EIdent (at9 7) "xs" false;
+                             EClosure (at9 8) (EBinary (at9 9) BGt (EPointer (at9 10)) (EInt (at9 11) 0))])
+    (EMap (at9 12) [EPair (at9 12) (EStr (at9 12) "k")
+                      (EUnary (at9 13) UMinus (EMethod (at9 14) (EIdent (at9 15) "u" false) "m" [] false))]).
+Definition lab_layout : layout :=
+  mkLayout (fun i => match i with
+                     | O => [9]
+                     | 2%nat => [32; 10; 9]
+                     | S _ => nth (Nat.modulo i 4) [[10; 9]; [32; 32]; [13; 10]; [9; 32]] [32]
+                     end)
+           (fun _ => [32; 32]) (fun i => Nat.even i).
+
+Example C11_text_locations_nonvacuous :
+  let toks := print_min gen_grammar dec ex_fmt_float lab_tree in
+  printable gen_grammar dec ex_fmt_float ex_oracles no_extra lab_tree /\
+  tree_textable nf nf nf dec ex_fmt_float lab_tree = true /\ white lab_layout toks = true /\ distinct_locs toks = true.
+Proof. vm_compute. repeat split; try reflexivity; intros; try discriminate; try congruence. Qed.
+
+(* computed on the model: the parsed tree IS the labelled tree with every label replaced by the position of the
+   token carrying it (conditional node: no location); e.g. `not in` (label (9,1)) stands at line 1, column 4 *)
+Example C11_text_locations_computed :
+  let toks := print_min gen_grammar dec ex_fmt_float lab_tree in
+  let txt := render nf nf nf lab_layout toks in
+  parse_text nf nf nf gen_grammar ex_oracles txt = ROk (map_loc (label_pos toks (text_positions nf nf nf txt)) lab_tree) /\
+  label_pos toks (text_positions nf nf nf txt) (9, 1) = (1, 4) /\
+  label_pos toks (text_positions nf nf nf txt) (9, 12) = (10, 3).
+Proof. vm_compute. repeat split. Qed.
